@@ -141,7 +141,14 @@ def check(run, ctx):
 
     V4 = run.rule("V4", "find_matching_rule keeps the strictly deepest match; a directory key matches only whole leading path components", floor=2)
     fm = repo.func(f"{PKG}.directory_matcher.DirectoryMatcher.find_matching_rule")
-    strict = any(isinstance(n, ast.Compare) and isinstance(n.ops[0], ast.Gt) and ast.unparse(n.left) == "depth" and "best_depth" in ast.unparse(n.comparators[0]) for n in ast.walk(fm.node))
+    # roles, not names: `if <matched and> d > best: ... best = d` - the running maximum is updated under a strict comparison
+    strict = False
+    for n in ast.walk(fm.node):
+        if isinstance(n, ast.If):
+            for c_ in ast.walk(n.test):
+                if isinstance(c_, ast.Compare) and len(c_.ops) == 1 and isinstance(c_.ops[0], ast.Gt) and isinstance(c_.left, ast.Name) and isinstance(c_.comparators[0], ast.Name):
+                    if any(isinstance(a, ast.Assign) and ast.unparse(a.targets[0]) == c_.comparators[0].id and ast.unparse(a.value) == c_.left.id for a in n.body):
+                        strict = True
     (run.ok(V4, "find_matching_rule", "depth > best_depth (strictly deepest wins)") if strict else run.finding(V4, "find_matching_rule", "not-strict", "the deepest matching directory rule is not selected with a strict comparison", fm.loc))
     pm = repo.func(f"{PKG}.directory_matcher.DirectoryMatcher._check_path_match")
     sw = [n for n in ast.walk(pm.node) if is_call_named(n, "startswith")]
